@@ -323,7 +323,30 @@ func c18CLI(c *eng.Ctx) {
 		c.Undecided("R-C18-3", runPut, runPut.Pos(), "Put request in runPut", "not found")
 		return
 	}
+	nilErrReturn := func(x ssa.Instruction) bool {
+		r, isR := x.(*ssa.Return)
+		if !isR {
+			return false
+		}
+		rv := eng.RetVals(r)
+		return len(rv) == 0 || nonNilAt(rv[len(rv)-1], eng.FactsAt(r)) != eng.Yes
+	}
 	sent := put.Call.Args[len(put.Call.Args)-1]
+	// the selection of the input (file / terminal / pipe) may live in a helper
+	// of the command returning (value, error): the rules then apply inside it,
+	// "the request" being its successful return
+	top := runPut
+	isTarget := func(x ssa.Instruction) bool { return x == ssa.Instruction(put) }
+	if inner, hc := eng.ThroughHelper(sent, func(g *ssa.Function) bool { return eng.IsHelper(runPut, g) }); inner != nil && hc != nil {
+		if _, isPhi := eng.Origin(inner).(*ssa.Phi); isPhi {
+			hit, _ := eng.Search(runPut, hc, eng.AssumeErr(saveErr(hc), false), nil, isTarget)
+			c.Check(hit == nil, "R-C18-3", runPut, hc.Pos(), "failure of "+eng.CallStr(&hc.Call), "when reading or checking the value fails, put returns without contacting the server", "the Put request is reachable after the failure")
+			runPut = eng.Callee(&hc.Call)
+			sent = inner
+			isTarget = nilErrReturn
+		}
+	}
+	defer func() { runPut = top }()
 	leaves, phis := eng.PhiLeaves(eng.Origin(sent))
 	if len(phis) == 0 {
 		leaves = []eng.PhiLeaf{{Val: sent, From: put.Block()}}
@@ -350,14 +373,6 @@ func c18CLI(c *eng.Ctx) {
 			return true
 		}
 		return eng.Search(fn, start, assume, nil, target)
-	}
-	nilErrReturn := func(x ssa.Instruction) bool {
-		r, isR := x.(*ssa.Return)
-		if !isR {
-			return false
-		}
-		rv := eng.RetVals(r)
-		return len(rv) == 0 || nonNilAt(rv[len(rv)-1], eng.FactsAt(r)) != eng.Yes
 	}
 	okReadOf := func(arg ssa.Value) bool {
 		rd, ridx := eng.TupleCall(arg)
@@ -427,7 +442,7 @@ func c18CLI(c *eng.Ctx) {
 			c.Check(okRet, "R-C18-3", cal, inner.Pos(), site+" [helper]", "the helper's successful result is exactly checkPutText(its argument)", "another value is returned with a nil error")
 			c.Check(okReadOf(call.Call.Args[0]), "R-C18-3", runPut, call.Pos(), site+" [input]", "checkPutText is applied to exactly the bytes read: os.ReadFile(--from-file) or io.ReadAll(os.Stdin) of the whole input", "applied to "+eng.ValStr(call.Call.Args[0]))
 			hitH, _ := eng.Search(cal, inner, eng.AssumeErr(saveErr(inner), false), nil, nilErrReturn)
-			hit, _ := eng.Search(runPut, call, eng.AssumeErr(saveErr(call), false), nil, func(x ssa.Instruction) bool { return x == ssa.Instruction(put) })
+			hit, _ := eng.Search(runPut, call, eng.AssumeErr(saveErr(call), false), nil, isTarget)
 			c.Check(hit == nil && hitH == nil, "R-C18-3", runPut, call.Pos(), site+" [refusal]", "when checkPutText refuses, put returns without contacting the server", "the Put request is reachable after the refusal")
 			if inv, _ := eng.TupleCall(eng.Origin(lf.Val)); inv != nil {
 				var innerVal ssa.Value
@@ -448,7 +463,7 @@ func c18CLI(c *eng.Ctx) {
 			c.Check(okReadOf(call.Call.Args[0]), "R-C18-3", runPut, call.Pos(), site+" [input]", "checkPutText is applied to exactly the bytes read: os.ReadFile(--from-file) or io.ReadAll(os.Stdin) of the whole input", "applied to "+eng.ValStr(call.Call.Args[0]))
 			// its error returns before the request: from the err != nil edge Put is unreachable
 			ev := saveErr(call)
-			hit, _ := eng.Search(runPut, call, eng.AssumeErr(ev, false), nil, func(x ssa.Instruction) bool { return x == ssa.Instruction(put) })
+			hit, _ := eng.Search(runPut, call, eng.AssumeErr(ev, false), nil, isTarget)
 			c.Check(hit == nil, "R-C18-3", runPut, call.Pos(), site+" [refusal]", "when checkPutText refuses, put returns without contacting the server", "the Put request is reachable after the refusal")
 		case eng.CalleeIs(&call.Call, "golang.org/x/term", "ReadPassword"):
 			c.Ok("R-C18-3", runPut, call.Pos(), site, "terminal input (sent as typed)")
@@ -487,7 +502,7 @@ func c18CLI(c *eng.Ctx) {
 			c.Ok("R-C18-3", cal, inner.Pos(), site+" [empty]", "refused inside "+eng.FName(cal)+": with len(value) == 0 and !EmptyOK it has no successful return")
 			continue
 		}
-		hit, path := emptyReach(runPut, call, lf.Val, func(x ssa.Instruction) bool { return x == ssa.Instruction(put) })
+		hit, path := emptyReach(runPut, call, lf.Val, isTarget)
 		c.Check(hit == nil, "R-C18-3", runPut, call.Pos(), site+" [empty]", "an empty value is refused unless --empty-ok: with len(value) == 0 and !EmptyOK the request is unreachable", func() string {
 			if hit == nil {
 				return ""
